@@ -161,6 +161,7 @@ func (r *Run) execRestore(t *Task, idx int, tx *TxPlan) {
 	}
 	panicked := false
 	var pv any
+	callSeq := r.s.NextSeq()
 	func() {
 		defer func() {
 			if p := recover(); p != nil {
@@ -183,6 +184,7 @@ func (r *Run) execRestore(t *Task, idx int, tx *TxPlan) {
 	r.mu.Lock()
 	r.restoring = nil
 	r.mu.Unlock()
+	r.recordHist(histOp{Task: t.Name, Kind: "restore", Call: callSeq, Ret: r.s.NextSeq(), Nonce: rec.nonce, Effect: !panicked})
 	if failAt >= 0 {
 		r.bump(&r.res.FaultsHit, "F11-reader")
 		if !panicked {
